@@ -596,6 +596,9 @@ func (n *NDWriter) Write(v interface{}) {
 	n.N++
 }
 
+// Flush writes buffered lines to the file.
+func (n *NDWriter) Flush() { n.w.Flush() }
+
 func (n *NDWriter) Close() {
 	n.w.Flush()
 	n.f.Close()
